@@ -119,11 +119,28 @@ static Node build(const json &d, ob::StateSpacePtr have = nullptr)
         nd.unit = unitOf(d);
         if (!have && d.value("real", std::string()) == "Empty")
             have = std::make_shared<ob::EmptyStateSpace>();   // dimension 0: nothing to bound
+        const int grow = d.value("grow", 0);
+        if (!have && grow > 0 && grow < nd.n)
+        {
+            // a space that GROWS after it was set up: n - grow bounded dimensions, setup() (caches whatever the
+            // space derives from its bounds), then addDimension(lo, hi) `grow` times - the documented way to extend
+            // a real vector space; everything it reports afterwards must describe all n dimensions
+            auto sp = std::make_shared<ob::RealVectorStateSpace>(nd.n - grow);
+            ob::RealVectorBounds b0(nd.n - grow);
+            b0.setLow(d["lo"].get<double>() * nd.unit);
+            b0.setHigh(d["hi"].get<double>() * nd.unit);
+            sp->setBounds(b0);
+            sp->setup();
+            (void)sp->getMaximumExtent();
+            for (int i = 0; i < grow; ++i)
+                sp->addDimension(d["lo"].get<double>() * nd.unit, d["hi"].get<double>() * nd.unit);
+            have = sp;
+        }
         if (!have)
             have = std::make_shared<ob::RealVectorStateSpace>(nd.n);
         auto *rv = have->as<ob::RealVectorStateSpace>();
         nd.n = (int)rv->getDimension();
-        if (d.contains("lo") && nd.n > 0)
+        if (d.contains("lo") && nd.n > 0 && grow == 0)
         {
             ob::RealVectorBounds b(nd.n);
             b.setLow(d["lo"].get<double>() * nd.unit);
@@ -1028,6 +1045,11 @@ static std::vector<Shipped> shipped()
     v.push_back({"RV1", J(R"({"k":"RV","n":1,"lo":-3,"hi":5,"u":[1,2]})"), true, true, false});
     v.push_back({"RV3", J(R"({"k":"RV","n":3,"lo":-2,"hi":3,"u":[1,1]})"), true, true, false});
     v.push_back({"RV6", J(R"({"k":"RV","n":6,"lo":-1,"hi":1,"u":[3,1]})"), true, true, false});
+    // spaces extended with addDimension() after a first setup()
+    v.push_back({"RV3Grown", J(R"({"k":"RV","n":3,"lo":-2,"hi":3,"u":[1,1],"grow":2})"), true, true, false});
+    v.push_back({"CompoundGrown",
+                 J(R"({"k":"Comp","real":"Compound","sub":[{"k":"RV","n":3,"lo":-1,"hi":2,"u":[1,1],"grow":1},{"k":"SO2"}],"w":[[2,1],[1,2]]})"),
+                 true, true, false});
     v.push_back({"SO2", J(R"({"k":"SO2"})"), true, true, false});
     v.push_back({"SO3", J(R"({"k":"SO3"})"), true, true, false});
     v.push_back({"SE2", J(R"({"k":"Comp","real":"SE2","sub":[{"k":"RV","n":2,"lo":-2,"hi":3,"u":[1,1]},{"k":"SO2"}],"w":[[1,1],[1,2]]})"), true, true, false});
